@@ -21,15 +21,17 @@ from vf.runner import Violation
 ID = "C20"
 LEVEL = "fault_enumeration"
 TECHNIQUE = "generated session histories (Hypothesis) x exhaustive crash points x torn-write classes; differential against the uninterrupted run"
-RULE = ("cases = (history of N <= 8 (thorough 20) stepping requests over 1-3 instances with settings, start/dt) and for each history every "
+RULE = ("cases = (history of N <= 8 (thorough 20) requests - run-step / run-steps with settings per manager, save-state, a new begin-session - over 1-3 instances, "
+        "sessions over one or two SD scenario managers, begin-session with or without settings, start/dt) and for each history every "
         "crash point k in 0..N and both restart styles, plus 6 damage classes of one instance's state file; an evaluation = one "
         "(history, crash point or damage class, restart style). Post-restart responses of every externalised instance must equal the "
         "uninterrupted run's. non-trivial = 0 < k < N with a setting applied before k, or a damaged file with >= 1 healthy sibling; "
         "distinct by (history, fault)")
 ASSUMPTIONS = [
     "a crash is modelled by dropping the server object between two requests (state on disk is whatever the last save left)",
-    "only instances that had been externalised before the crash (>= 1 stepping request) are required to continue",
+    "only instances whose current session had been externalised before the crash (a stepping request or GET /save-state after its begin-session) are required to continue; a begin-session that nothing has written yet is not externalised",
     "bodies are compared as parsed JSON with numerically compared keys",
+    "settings applied in an earlier session of the same instance linger in its scenarios and are in no session's externalised state; the statement speaks of the continuing session only, so an instance is not compared from a second begin-session that follows such settings",
 ]
 EXHAUSTIVE_SCOPE = "per generated history: every crash point k in 0..N x {start-up load, lazy load}, and every damage class in c20.DAMAGE"
 
@@ -37,15 +39,37 @@ SM, SC = c19.SM, c19.SC
 DAMAGE = ["empty", "one-byte", "cut-outer", "cut-inner", "last-byte", "garbage"]
 
 
-def _send(client, iid, req):
+SM2 = c19.SM2
+
+
+def _send(client, iid, req, case=None):
     kind = req[0]
+    two = bool(case and case.get("two"))
     if kind == "step":
-        if req[1] is None:
+        body = c19.settings_body(req[1], (req[2] if len(req) > 2 else None) if two else None)
+        if body is None:
             return client.post("/%s/run-step" % iid)
-        return client.post("/%s/run-step" % iid, json={"settings": {SM: {SC: req[1]}} if req[1] else {}})
+        return client.post("/%s/run-step" % iid, json=body)
     if kind == "steps":
-        return client.post("/%s/run-steps" % iid, json={"numberSteps": req[1], "settings": {SM: {SC: req[2]}} if req[2] else {}})
+        body = c19.settings_body(req[2], (req[3] if len(req) > 3 else None) if two else None) or {"settings": {}}
+        return client.post("/%s/run-steps" % iid, json=dict(body, numberSteps=req[1]))
+    if kind == "save":
+        return client.get("/save-state")
+    if kind == "begin":
+        return _begin(client, iid, case, req[1])
     raise ValueError(kind)
+
+
+def _begin(client, iid, case, bs):
+    body = {"scenario_managers": [SM, SM2] if case.get("two") else [SM], "scenarios": [SC], "equations": case["equations"]}
+    sb = c19.settings_body(*(bs or [None, None]))
+    if sb is not None and sb["settings"]:
+        body["settings"] = sb["settings"]
+    return client.post("/%s/begin-session" % iid, json=body)
+
+
+def _stepping(req):
+    return req[0] in ("step", "steps")
 
 
 def _norm(resp):
@@ -82,7 +106,7 @@ class Run:
 
     def server(self):
         from BPTK_Py import BptkServer, FileAdapter
-        app = BptkServer(__name__, bptk_factory=c19.make_factory(self.start, self.stop, self.dt, self.made),
+        app = BptkServer(__name__, bptk_factory=c19.make_factory(self.start, self.stop, self.dt, self.made, bool(self.case.get("two"))),
                          external_state_adapter=FileAdapter(bool(self.case.get("compress")), self.adir))
         app.logger.disabled = True
         return app
@@ -91,7 +115,8 @@ class Run:
         for i in range(ninst):
             iid = json.loads(client.post("/start-instance").data)["instance_uuid"]
             self.ids[i] = iid
-            client.post("/%s/begin-session" % iid, json={"scenario_managers": [SM], "scenarios": [SC], "equations": self.case["equations"]})
+            bs = (self.case.get("begin_settings") or [None] * ninst)[i]
+            _begin(client, iid, self.case, bs)
 
     def close(self):
         for b in self.made:
@@ -109,7 +134,7 @@ def uninterrupted(case, adir):
         run.begin(c, case["ninst"])
         out = []
         for inst, req in case["requests"]:
-            out.append(_norm(_send(c, run.ids[inst], req)))
+            out.append(_norm(_send(c, run.ids[inst], req, case)))
         return out
     finally:
         run.close()
@@ -123,10 +148,15 @@ def with_crash(case, k, lazy, damage=None):
         app = run.server()
         c = app.test_client()
         run.begin(c, case["ninst"])
-        ext = set()
+        ext = set()  # instances whose CURRENT session has been written to the external state
         for inst, req in case["requests"][:k]:
-            _send(c, run.ids[inst], req)
-            ext.add(inst)
+            _send(c, run.ids[inst], req, case)
+            if _stepping(req):
+                ext.add(inst)
+            elif req[0] == "save":
+                ext.update(range(case["ninst"]))
+            elif req[0] == "begin":
+                ext.discard(inst)  # the new session exists in memory only until a step or a save-state writes it
         del app, c  # the process is lost
         if damage is not None:
             victim, how = damage
@@ -154,7 +184,7 @@ def with_crash(case, k, lazy, damage=None):
         c2 = app2.test_client()
         out = []
         for inst, req in case["requests"][k:]:
-            out.append(_norm(_send(c2, run.ids[inst], req)))
+            out.append(_norm(_send(c2, run.ids[inst], req, case)))
         return out, ext, None
     finally:
         run.close()
@@ -180,10 +210,24 @@ def check_case(case):
             for how in DAMAGE:
                 faults.append({"k": N if N < 3 else N - 1, "lazy": False, "damage": [0, how]})
                 faults.append({"k": N if N < 3 else N - 1, "lazy": True, "damage": [0, how]})
+    # settings of an earlier session of the same instance linger in its scenarios (they are not part of any session's
+    # externalised state, and the statement only speaks of the session that continues): from a second begin-session after
+    # such settings on, the instance is not compared
+    tainted_from = {}
+    had = {i: bool(b_ and any(b_)) for i, b_ in enumerate(case.get("begin_settings") or [None] * case["ninst"])}
+    for j, (inst, req) in enumerate(reqs):
+        if req[0] == "begin":
+            if had.get(inst) and inst not in tainted_from:
+                tainted_from[inst] = j
+            if req[1] and any(req[1]):
+                had[inst] = True
+        elif _stepping(req) and any(x for x in req[1:] if isinstance(x, dict)):
+            had[inst] = True
     for fault in faults:
         k, lazy, damage = fault["k"], fault["lazy"], fault.get("damage")
         out, ext, err = with_crash(case, k, lazy, tuple(damage) if damage else None)
-        settings_before = any(r[1][1] if r[1][0] == "step" else r[1][2] for r in reqs[:k])
+        settings_before = any(any(x for x in r[1][1:] if isinstance(x, dict)) for r in reqs[:k] if _stepping(r[1])) or \
+            any(x for b_ in (case.get("begin_settings") or []) if b_ for x in b_)
         nt = (0 < k < N and settings_before) if damage is None else (case["ninst"] >= 2)
         info["evaluations"].append((fault, nt))
         style = "lazy" if lazy else "startup"
@@ -197,8 +241,22 @@ def check_case(case):
             if damage is not None and inst == damage[0]:
                 # the damaged instance may be refused, but it must not take the server down (any answer is fine)
                 continue
+            if inst in tainted_from and k + j >= tainted_from[inst]:
+                continue
+            if req[0] == "begin":
+                if got[0] == 200:
+                    ext.add(inst)  # a session begun on the new server is live there
+                elif inst in ext and want[0] == 200:
+                    vs.append(Violation("after-restart:begin-refused:%s" % style, "crash after request %d of %d: begin-session on restored instance %d answered %r; history %r"
+                                        % (k, N, inst, got, reqs), case=dict(case, fault=fault)))
+                    break
+                else:
+                    ext.discard(inst)
+                continue
+            if req[0] == "save":
+                continue  # the answer lists timestamps
             if inst not in ext:
-                continue  # never externalised before the crash: nothing to continue
+                continue  # its current session was never externalised before the crash: nothing to continue
             if got != want:
                 what = "status" if got[0] != want[0] else "values"
                 miss = ""
@@ -224,8 +282,10 @@ def history_strategy(max_n):
     setting = st.one_of(st.none(), st.just({}),
                         st.sampled_from([0.5, 1.0, 3.0, 7.0]).map(lambda v: {"constants": {"k": v}}),
                         st.sampled_from([1.0, 5.0, 20.0]).map(lambda v: {"points": {"p": [[0.0, 0.0], [10.0, v]]}}))
-    req = st.one_of(setting.map(lambda s: ["step", s]), setting.map(lambda s: ["step", s]),
-                    st.tuples(st.integers(1, 3), setting).map(lambda x: ["steps", x[0], x[1]]))
+    bset = st.one_of(st.none(), st.none(), st.tuples(setting, setting).map(list))
+    step = st.tuples(setting, setting).map(lambda x: ["step", x[0], x[1]])
+    req = st.one_of(step, step, step, st.tuples(st.integers(1, 3), setting, setting).map(lambda x: ["steps", x[0], x[1], x[2]]),
+                    st.just(["save"]), bset.map(lambda b_: ["begin", b_]))
 
     @st.composite
     def build(draw):
@@ -234,6 +294,7 @@ def history_strategy(max_n):
         requests = [[draw(st.integers(0, ninst - 1)), draw(req)] for _ in range(n)]
         return {"start": draw(st.sampled_from(["0", "1", "2.5", "8", "9.5", "98"])), "dt": draw(st.sampled_from(["1", "0.5", "0.25"])),
                 "equations": draw(st.sampled_from([["s"], ["s", "f"], ["k", "c", "s"]])), "ninst": ninst, "requests": requests,
+                "two": draw(st.booleans()), "begin_settings": [draw(bset) for _ in range(ninst)],
                 "compress": draw(st.booleans())}
     return build()
 
@@ -243,7 +304,9 @@ def _body(ctx):
         info, vs = check_case(case)
         for fault, nt in info["evaluations"]:
             ctx.case({"history": case["requests"], "start": case["start"], "dt": case["dt"], "fault": fault}, nontrivial=nt,
-                     labels=["fault:" + ("damage:" + fault["damage"][1] if fault.get("damage") else "crash"), "restart:" + ("lazy" if fault["lazy"] else "startup")],
+                     labels=["fault:" + ("damage:" + fault["damage"][1] if fault.get("damage") else "crash"), "restart:" + ("lazy" if fault["lazy"] else "startup"),
+                             "managers:%d" % (2 if case.get("two") else 1)] + sorted(set("req:" + r[1][0] for r in case["requests"])) +
+                     (["begin-settings"] if any(case.get("begin_settings") or []) else []),
                      key=[case, fault])
         ctx.extra["histories"] += 1
         ctx.report(vs)
@@ -251,7 +314,7 @@ def _body(ctx):
 
 
 def plan(tier):
-    n = 10 if tier == "quick" else 120
+    n = 30 if tier == "quick" else 300
     mn = 8 if tier == "quick" else 20
     return [{"n": n, "max_n": mn} for _ in range(16)]
 
